@@ -602,6 +602,18 @@ def binop(I, node, op, l, r):
             reduced = len(ra) < len(la) or any(b_ == () and a_ not in ((), None) for a_, b_ in zip(la[::-1], ra[::-1]))
         if lo and (lo & ro) and reduced:
             I.emit("self_quotient", node, origins=frozenset(lo & ro), num=l, den=r)
+    if isinstance(op, ast.Div) and l.tag("kind") != "ndarray" and (r.tag("extremum") is not None or r.tag("reduced_axis") is not None
+                                                                    or r.tag("norm_ord") is not None):
+        ro_ = frozenset(o for o in r.flat().data if "|" not in o and "@" not in o and "#" not in o)
+        if ro_:
+            out.tags["reciprocal_of_functional"] = ro_           # c / f(x): multiplying x by it is a self-normalisation of x
+    if isinstance(op, ast.Mult):
+        for a_, b_ in ((l, r), (r, l)):
+            rf_ = a_.tag("reciprocal_of_functional")
+            if rf_ and b_.tag("kind") == "ndarray":
+                bo_ = {o for o in b_.flat().data if "|" not in o and "@" not in o and "#" not in o}
+                if rf_ & bo_:
+                    I.emit("self_quotient", node, origins=frozenset(rf_ & bo_), num=b_, den=a_)
     if isinstance(op, (ast.Mult, ast.Div)):
         for x_ in (l, r):
             if x_.tag("pow_by_extent"):
@@ -1637,6 +1649,19 @@ def call_extern(I, e, dotted, args, kws, method=False):
         if knode is not None and not (tgt.known and tgt.const is None):
             I.emit("inplace", e, target=tgt, value=out, how="out=", tnode=knode)
             res = out.copy(fresh=tgt.fresh)
+            wh = kws.get("where")
+            if wh is not None and not (wh.known and wh.const is True):
+                # a masked ufunc writes only where the mask holds: elsewhere the target keeps what it held
+                res = join(tgt, out).copy(fresh=tgt.fresh)
+                res.tags["masked_write"] = wh
+                if dotted in ("numpy.divide", "numpy.true_divide") and len(args) >= 2:
+                    md = {o.split("|")[0] for o in wh.flat().data}
+                    dd = {o.split("|")[0] for o in args[1].flat().data}
+                    if md and dd and md != dd and (dd - md):
+                        I.type_error(e, "QTY", f"the `where=` mask of this division is computed from {sorted(md)} but the divisor depends on "
+                                               f"{sorted(dd)}: the entries left at their initial value are chosen by a different quantity "
+                                               f"({', '.join(sorted(dd - md))} is missing from the test) than the one that is inverted",
+                                     sub="mismatch")
             if isinstance(knode, ast.Name):
                 I.fr.env[knode.id] = res
                 if knode.id in I.fr.param_live and tgt.tag("kind") != "int":
